@@ -14,7 +14,7 @@ sys.path.insert(0, "/verif/tools")
 import vcheck
 vcheck.gen_zobrist_v()
 PY
-( cd coq && coq_makefile -f _CoqProject -o Makefile > /dev/null && timeout 3000 make -k -j16 > ../build/coq_build.log 2>&1 || true; tail -3 ../build/coq_build.log )
+( cd coq && coq_makefile -f _CoqProject -o Makefile > /dev/null && timeout 3000 make -k -j16 COQC='timeout 900 coqc' > ../build/coq_build.log 2>&1 || true; tail -3 ../build/coq_build.log )
 tools/build_driver.sh
 ( cd /repo && env -u RUSTFLAGS cargo build --release --offline --target-dir /verif/build/cargo-bin 2>&1 | tail -1 )
 echo "setup done"
